@@ -59,8 +59,14 @@ def setup(param):
 
 
 # ---------------------------------------------------------------- totality oracle
-def load_ok(env, src):
+def load_ok(env, src, wrap=True):
     """True iff loading `src` yields a template or a TemplateSyntaxError with a line number inside the source."""
+    if wrap and not _load_ok(env, "{% autoescape flag %}" + src + "{% endautoescape %}"):
+        return False  # the same source in a runtime-decided (volatile) autoescape region: other code paths of the generator
+    return _load_ok(env, src)
+
+
+def _load_ok(env, src):
     try:
         env.from_string(src)
     except TemplateSyntaxError as e:
@@ -179,7 +185,8 @@ SEEDS = [
     "{% autoescape true %}t{% endautoescape %}", "{% raw %}{{ x }}{% endraw %}", "{# c #}t", "{{ 1e999 }}", "{{ 0x1_f + 0b1 + 0o7 + 1_0.5e-3 }}", "{{ 'a' 'b' \"c\" }}",
     "{{ a.1 }}", "{{ a.b.c() }}", "{{ (a, ) }}", "{{ a(**b) }}", "{{ a if b }}", "{{ loop.cycle('a', 'b') }}", "{{ self.b() ~ super() }}", "{{ namespace(a=1).a }}",
     "{% for x in y %}{% for x in x %}{{ loop.index }}{% endfor %}{% endfor %}", "{% block a %}{% block b %}{{ super() }}{% endblock %}{% endblock %}",
-    "{% if a is not none and b is defined(1) %}{% endif %}", "{{ a|map(attribute='x')|select('odd')|list }}", "{{ not a == b }}", "{{ a // b % c }}",
+    "{% if a is not none and b is defined(1) %}{% endif %}", "{% call foo(caller=1) %}{% endcall %}", "{% call(x) foo(1, caller=x, k=2) %}{% endcall %}",
+    "{{ 1 if x }}{{ (1 if x) + 1 }}", "{% from 'm' import a as b %}{{ b }}", "{% import 'm' as m %}{{ m.a }}", "{% include 'm' %}", "{{ 2**3**2 }}{{ 7 // 0 if false }}", "{{ 9**9 }}", "{{ a|map(attribute='x')|select('odd')|list }}", "{{ not a == b }}", "{{ a // b % c }}",
 ]
 EXT_SEEDS = ["{% trans a=f(), b=2 %}x {{ a }}{% pluralize b %}y{% endtrans %}", "{% trans trimmed %} t {% endtrans %}", "{% do a.append(1) %}",
              "{% for x in y %}{% break %}{% continue %}{% endfor %}", "{% debug %}", "{{ _('m', a=1) }}", "{% trans count=n %}{{ count }}{% pluralize %}{{ count }}{% endtrans %}"]
@@ -242,6 +249,78 @@ def seeds_ok(i: int, envk: int) -> bool:
     e = ["default", "ext", "sandbox", "async", "line"][pick(envk, 5)]
     with NoTracing():
         return load_ok(ENVS[e], (SEEDS + EXT_SEEDS)[k])
+
+
+TNAMES = ["plain", "a'b", 'a"b', "a{b}", "a\\b", "a\nb", "é%s", "x y", "a\"'b", "{{", "''" + "'", "\\"]
+
+
+def names_ok(ni: int, si: int) -> bool:
+    """
+    pre: 0 <= ni < len(TNAMES) and 0 <= si < len(SEEDS)
+    post: _
+    """
+    n = TNAMES[pick(ni, len(TNAMES))]
+    k = pick(si, len(SEEDS))
+    with NoTracing():
+        from jinja2 import DictLoader
+        ok = True
+        for asyncm in (False, True):
+            env = Environment(loader=DictLoader({n: SEEDS[k], "m": "{% macro a() %}{% endmacro %}"}), enable_async=asyncm)
+            try:
+                env.get_template(n)
+            except TemplateSyntaxError as e:
+                ok = ok and isinstance(e.lineno, int) and e.lineno >= 1
+        return ok
+
+
+def known_int_digit_limit_ok():
+    """Known-finding witness: Python's int<->str digit limit (4300) surfaces as a bare ValueError."""
+    try:
+        Environment().from_string("{{ 10**5000 }}")
+        Environment().from_string("{{ " + "9" * 5000 + " }}")
+    except TemplateSyntaxError:
+        return True
+    except ValueError:
+        return False
+    return True
+
+
+# ---------------------------------------------------------------- (d) "never hangs": pathological inputs under a time limit
+import signal
+
+SLOW = [
+    '{{ "' + "Welcome back, dear customer of the shop " * 2 + " }}</h1>", "{{ '" + "a" * 60, "{% set x = '" + "\\\\" * 40 + " %}", '{{ "' + "\\'" * 40 + " }}",
+    "{{ " + "(" * 60 + " }}", "{{ a" + "[" * 60 + " }}", "{{ " + "1_" * 60 + " }}", "{{ " + "1" * 60 + "e }}", "{{ 0x" + "_f" * 50 + "g }}", "{{ " + "a" * 200 + "· }}",
+    "{% raw %}" + "{% endra " * 60, "{#" + " #" * 200, "{{" * 60, "{% if " + "not " * 200 + "%}", "x" + " \n" * 300 + "{%- if -%}", "{{ a" + ".b" * 200 + "( }}",
+    "{{ '" + "\\\\x" * 40 + "' }}", "{{ " + "-" * 300 + "1 }}", "{{ a" + "|f" * 200 + " }}", "# " * 200, "{{ 1" + " if a else 1" * 100 + " }}",
+]
+
+
+class _Timeout(Exception):
+    pass
+
+
+def _alarm(signum, frame):
+    raise _Timeout()
+
+
+def hang_ok(i: int, envk: int) -> bool:
+    """
+    pre: 0 <= i < len(SLOW) and 0 <= envk <= 1
+    post: _
+    """
+    k = pick(i, len(SLOW))
+    e = ["default", "line"][pick(envk, 2)]
+    with NoTracing():
+        old = signal.signal(signal.SIGALRM, _alarm)
+        signal.setitimer(signal.ITIMER_REAL, 8.0)
+        try:
+            return _load_ok(ENVS[e], SLOW[k])
+        except _Timeout:
+            return False  # loading did not return within the limit
+        finally:
+            signal.setitimer(signal.ITIMER_REAL, 0)
+            signal.signal(signal.SIGALRM, old)
 
 
 # ---------------------------------------------------------------- (c) identifier-like runs through Lexer.wrap
@@ -348,7 +427,7 @@ def conditions(tier, seed):
                 k += 1
                 if envk != "default" and (k + seed) % (2 if th else 4):
                     continue
-                deep = (k + seed) % (3 if th else 7) == 0
+                deep = (k + seed) % (3 if th else 9) == 0
                 n = (3 if deep else 2) if th else (2 if deep else 1)
                 out.append(Cond(f"tokens[{envk}] {first} {' '.join(lead)} + <= {n} more", "seq_ok", mode="B",
                                 param={"env": envk, "first": first, "lead": lead, "n": n}, timeout=to * (3 if n > 1 else 1),
@@ -359,12 +438,16 @@ def conditions(tier, seed):
     for envk in (["default", "ext", "async", "sandbox"] if th else ["default", "ext"]):
         tot = total + (len(EXT_SEEDS) if envk == "ext" else 0)
         for lo in range(0, tot, ns):
-            if not th and envk != "default" and (lo // ns + seed) % 4:
+            if not th and ((envk != "default" and (lo // ns + seed) % 4) or (envk == "default" and (lo // ns + seed) % 2)):
                 continue
             out.append(Cond(f"edits[{envk}] seeds {lo}..{min(lo + ns, tot) - 1}", "edit_ok", mode="B",
                             param={"env": envk, "lo": lo, "nseeds": min(ns, tot - lo)}, timeout=to,
                             witnesses=[[0, 1, 0, 0], [0, 3, 2, 5], [0, 2, 3, 0], [0, 4, 1, 0]],
                             bounds="every single-token deletion, duplication, swap and replacement (35 replacement tokens) of each seed, alone and embedded between text lines"))
+    out.append(Cond("template names with quotes/braces/backslashes x seed corpus", "names_ok", mode="B", param={}, timeout=to * 2,
+                    witnesses=[[1, 8], [2, 0], [8, 50]], bounds=f"{len(TNAMES)} template names x {len(SEEDS)} seeds, sync and async environments (names are embedded in generated code)"))
+    out.append(Cond("pathological inputs return within 8 s", "hang_ok", mode="B", param={}, timeout=240, path_timeout=30,
+                    witnesses=[[0, 0], [4, 1]], bounds=f"{len(SLOW)} inputs built to provoke backtracking / deep recursion (unterminated strings with long tails, long digit/underscore runs, deep nesting) x 2 environments"))
     for cx in range(4):
         out.append(Cond(f"identifier-like character runs[position {cx}]", "name_ok", mode="B", param={"ctx": cx}, timeout=to,
                         witnesses=[[[0, 2], 0], [[1, 0], 0], [[5], 0]], bounds=f"1..3 characters from {NAMECH!r}"))
